@@ -191,7 +191,7 @@ def gen_data(c):
     n = int(np.prod(shape))
     dt = np.float32 if c['dtype'] == 'f4' else np.float64
     d = (rs.standard_normal(n) * 10).astype(dt)
-    d += np.arange(n, dtype=dt)          # planes differ, values unique enough
+    d += ((np.arange(n) * 7) % 101 - 50).astype(dt)     # both signs; planes differ through the noise
     if c.get('prenan'):
         k = rs.randint(0, n, size=max(1, n // 37))
         d[k] = np.nan
@@ -318,8 +318,8 @@ def judge_image(ctx, c, orc, before, after, out_shape, lean_line, record=True):
                 pre = (before == nan).reshape(P, H * W)
                 newly = bl & ~pre
                 planes_differ = bool(((newly != newly[0]) & ~pre & ~pre[0]).any())
-            detail = (f"pixel plane {p} row {i} col {j} (FITS x={j + 1}, y={i + 1}; ra={orc['ra'][i + 1, j + 1]!r}, "
-                      f"dec={orc['dec'][i + 1, j + 1]!r}) has its own centre "
+            detail = (f"pixel plane {p} row {i} col {j} (FITS x={j + 1}, y={i + 1}; ra={float(orc['ra'][i + 1, j + 1])!r}, "
+                      f"dec={float(orc['dec'][i + 1, j + 1])!r}) has its own centre "
                       f"{'inside' if grid[i + 1, j + 1] == '1' else 'outside/undefined'} the region, negate={c['negate']}: "
                       f"must be {'blanked' if must[k] else 'left unchanged'}, but the output value is "
                       f"{'the blank' if after[k] == nan else ('unchanged' if after[k] == before[k] else 'altered')}; "
@@ -576,7 +576,8 @@ def table_codes(c, tab, region):
     ra = np.array(tab[c['names'][0]], dtype=float)
     dec = np.array(tab[c['names'][1]], dtype=float)
     fin, mem = membership(pixset, c['region']['depth'], ra, dec)
-    eps = 1e-9
+    # float32 coordinate columns are converted to radians in float32 by the implementation (1e-5 deg)
+    eps = 1e-4 if c.get('f32') else 1e-9
     cd = np.maximum(np.cos(np.radians(np.where(fin, dec, 0.0))), 1e-6)
     for dx, dy in ((eps, 0), (-eps, 0), (0, eps), (0, -eps)):
         _, m2 = membership(pixset, c['region']['depth'], ra + dx / cd, np.clip(dec + dy, -90, 90))
@@ -644,7 +645,7 @@ def run_table_impl(ctx, c, region):
     return seen, out
 
 
-def eval_tables(ctx, cases, record=True):
+def eval_tables(ctx, cases, record=True, use_lean=True, shrink=True):
     todo, lines = [], []
     outcomes = [None] * len(cases)
     for n, c in enumerate(cases):
@@ -673,7 +674,7 @@ def eval_tables(ctx, cases, record=True):
         py_ok = (fout == [f for f, k in zip(fin, codes) if (k == '1') == c['negate']]) and \
             list(out.colnames) == list(seen.colnames)
         line = None
-        if ctx.driver_ok:
+        if ctx.driver_ok and use_lean:
             line = (f"table {int(c['negate'])} {int(pole)} {codes or '-'} {len(fin)} " + ' '.join('%x' % f for f in fin)
                     + f" {len(fout)} " + ' '.join('%x' % f for f in fout))
             lines.append(line)
@@ -691,6 +692,11 @@ def eval_tables(ctx, cases, record=True):
             model = [int(x, 16) for x in m.split()]
         if not py_ok:
             outcomes[n] = 'spec'
+            if record and shrink and len(c['coords']) > 3 and getattr(ctx, '_c10_tshrunk', 0) < 2:
+                ctx._c10_tshrunk = getattr(ctx, '_c10_tshrunk', 0) + 1
+                small = shrink_table(ctx, c)
+                if small is not c and eval_tables(ctx, [small], record=True, use_lean=use_lean, shrink=False)[0] == 'spec':
+                    continue
             if record:
                 want = [k for k, code in enumerate(codes) if (code == '1') == c['negate']]
                 got = [fin.index(f) if f in fin else -1 for f in fout]
@@ -787,10 +793,10 @@ def run(ctx):
     corp = corpus_cases()
     eval_images(ctx, [c for c in corp if c['kind'] == 'image'])
     eval_tables(ctx, [c for c in corp if c['kind'] == 'table'])
-    n_img = 70 if ctx.quick else 600
-    n_small = 30 if ctx.quick else 200
-    n_line = 6 if ctx.quick else 40
-    n_tab = 60 if ctx.quick else 400
+    n_img = 70 if ctx.quick else 1800
+    n_small = 30 if ctx.quick else 600
+    n_line = 6 if ctx.quick else 100
+    n_tab = 60 if ctx.quick else 1500
     imgs = [gen_image(rng, ctx.quick) for _ in range(n_img)] + \
            [gen_image(rng, ctx.quick, small=True) for _ in range(n_small)] + \
            [one_line_cube(rng) for _ in range(n_line)]
@@ -834,6 +840,26 @@ def shrink_image(ctx, c):
                     if fails(t):
                         cur, changed = t, True
                         break
+    return cur
+
+
+def shrink_table(ctx, c):
+    """delete rows while the implementation still violates the Spec"""
+    def fails(cc):
+        return eval_tables(ctx, [cc], record=False, use_lean=False, shrink=False)[0] == 'spec'
+    cur = c
+    chunk = max(1, len(cur['coords']) // 2)
+    while chunk >= 1:
+        k, changed = 0, False
+        while k < len(cur['coords']):
+            t = dict(cur, coords=cur['coords'][:k] + cur['coords'][k + chunk:])
+            if len(t['coords']) < len(cur['coords']) and fails(t):
+                cur, changed = t, True
+            else:
+                k += chunk
+        if chunk == 1 and not changed:
+            break
+        chunk = chunk // 2 if chunk > 1 else (1 if changed else 0)
     return cur
 
 
